@@ -17,9 +17,9 @@ use std::collections::{BTreeMap, BTreeSet};
 pub const META: PropMeta = PropMeta {
     id: "C08",
     level: "exploration",
-    rule: "cases = (registry after ensure_unique_type_paths, settings with 0..3 global, 0..5 specific and 0..4 recursive registrations on generated paths — overlapping reach, the same path both specific and recursive —, every registration using derive/attribute names unique to it, CompactAs configured or not, sometimes a substitute). Registries: random programs incl. cyclic graphs, generics, tuples/arrays/compact wrappers, skipped parameters, plus Polkadot sub-registries. Oracle per emitted item: parsed derive and attribute sets must contain global + own-path + every recursive registration whose root reaches the item in the generated-code graph (closure over the item paths mentioned in emitted field types, root included) [must], and must be contained in global + own-path + every recursive registration whose root reaches the item's path in the registry graph (fields, elements, non-skipped parameters; bit-order markers not counted) [may]; CompactAs: required iff configured and the item is a struct with exactly one non-marker field whose emitted type is u8..u128, forbidden otherwise (a single compact-marked unsigned field is don't-care). non-trivial = >= 1 recursive registration whose must-reach has >= 2 items; distinct by hash of registry+settings.",
+    rule: "cases = (registry after ensure_unique_type_paths, settings with 0..3 global, 0..5 specific and 0..4 recursive registrations on generated paths — overlapping reach, the same path both specific and recursive —, every registration using derive/attribute names unique to it, CompactAs configured or not, sometimes a substitute). Registries: random programs incl. cyclic graphs, generics, tuples/arrays/compact wrappers, skipped parameters, plus Polkadot sub-registries. Oracle per emitted item: parsed derive and attribute sets must contain global + own-path + every recursive registration whose root reaches the item in the generated-code graph (closure over the item paths mentioned in emitted field types, root included) [must], and must be contained in global + own-path + every recursive registration whose root reaches the item's path in the registry graph (fields, elements, non-skipped parameters; bit-order markers not counted) [may]; CompactAs: required iff configured and the item is a struct with exactly one non-marker field whose emitted type is u8..u128, forbidden otherwise (a single compact-marked unsigned field is don't-care); the same rule is asked of the intermediate representation (create_type_ir) for single-member structs over every primitive kind, the 256-bit ones included (hand-written wrapper gallery, and every third registry with its 128-bit primitives turned into 256-bit ones). non-trivial = >= 1 recursive registration whose must-reach has >= 2 items; distinct by hash of registry+settings.",
     assumptions: &["reachability is judged as a sandwich (must within generated code, may within the registry), so the monitor never demands more than the statement"],
-    required_counters: &["items_checked", "recursive_roots", "compact_as_required", "compact_as_forbidden", "hook[derives:reach]"],
+    required_counters: &["items_checked", "recursive_roots", "compact_as_required", "compact_as_forbidden", "ir_compact_as_required", "ir_compact_as_forbidden", "wrapper_gallery_registries", "hook[derives:reach]"],
     floor: (300, 5000),
     shards: (16, 16),
 };
@@ -219,7 +219,85 @@ pub fn judge(ctx: &mut Ctx, r: &PortableRegistry, d: &SDesc, replay: &dyn Fn() -
     nontrivial
 }
 
+/// The CompactAs rule on the intermediate representation (`TypeGenerator::create_type_ir`), where a
+/// single-member struct over ANY primitive can be asked about - also the 256-bit ones, for which no
+/// Rust tokens can be rendered: required iff configured and the member is u8..u128, absent otherwise.
+pub fn judge_ir_compact_as(ctx: &mut Ctx, r: &PortableRegistry, d: &SDesc, replay: &dyn Fn() -> serde_json::Value) {
+    use scale_info::{TypeDef, TypeDefPrimitive as P};
+    let Some(ca) = d.compact_as_path.as_deref().map(nows) else { return };
+    let settings = d.build();
+    let Ok(Ok(flat)) = guard(|| settings.derives.clone().flatten_recursive_derives(r)) else { return };
+    for t in &r.types {
+        let TypeDef::Composite(c) = &t.ty.type_def else { continue };
+        if !reg::is_generated(&t.ty) || !t.ty.type_params.is_empty() || c.fields.len() != 1 {
+            continue;
+        }
+        let Some(TypeDef::Primitive(p)) = r.resolve(c.fields[0].ty.id).map(|x| &x.type_def) else { continue };
+        let want = matches!(p, P::U8 | P::U16 | P::U32 | P::U64 | P::U128);
+        let gen = scale_typegen::TypeGenerator::new(r, &settings);
+        let Ok(Ok(Some(ir))) = guard(|| gen.create_type_ir(&t.ty, &flat)) else { continue };
+        let has = ir.derives.derives().iter().any(|x| nows(&ts(x)) == ca);
+        ctx.count(if want { "ir_compact_as_required" } else { "ir_compact_as_forbidden" }, 1);
+        if want != has {
+            ctx.violation(
+                if want { "C08:missing:compact-as(ir)" } else { "C08:unexpected:compact-as(ir)" },
+                format!("create_type_ir for {} (one member of primitive type {:?}): CompactAs derive {}", t.ty.path.segments.join("::"), p, if has { "present" } else { "absent" }),
+                replay(),
+            );
+        }
+    }
+}
+
+/// One single-member wrapper (named and unnamed) per primitive kind.
+fn wrapper_gallery() -> Program {
+    let mut defs = Vec::new();
+    let mut roots = Vec::new();
+    for (i, p) in Prim::ALL.iter().enumerate() {
+        for named in [false, true] {
+            defs.push(Def {
+                module: vec!["w".into()],
+                name: format!("W{}{}", if named { "n" } else { "u" }, i),
+                params: vec![],
+                kind: DefKind::Struct(
+                    if named { Style::Named } else { Style::Unnamed },
+                    vec![FieldDecl { name: named.then(|| "value".to_string()), ty: Ty::Prim(*p), compact: false, skip: false, docs: vec![] }],
+                ),
+                docs: vec![],
+            });
+            roots.push(Ty::Def(defs.len() - 1, vec![]));
+        }
+    }
+    Program { krate: "krate".into(), defs, markers: vec![], roots, prefix: vec![] }
+}
+
 pub fn run(ctx: &mut Ctx) {
+    if ctx.mine(0) {
+        let r = sim::simulate(&wrapper_gallery()).registry;
+        let mut r256 = r.clone();
+        for t in r256.types.iter_mut() {
+            if let scale_info::TypeDef::Primitive(p) = &mut t.ty.type_def {
+                if *p == scale_info::TypeDefPrimitive::U128 {
+                    *p = scale_info::TypeDefPrimitive::U256;
+                } else if *p == scale_info::TypeDefPrimitive::I128 {
+                    *p = scale_info::TypeDefPrimitive::I256;
+                }
+            }
+        }
+        let mut d = SDesc::default();
+        d.compact_as_path = Some("::zz::CompactAs".into());
+        d.global_derives = vec!["::g::G0".into()];
+        let dj = serde_json::to_value(&d).unwrap();
+        for (rr, tag) in [(&r, "as-is"), (&r256, "256-bit")] {
+            ctx.begin_case(&format!("c08 wrapper gallery {tag}"));
+            let rj = reg::to_json(rr);
+            judge_ir_compact_as(ctx, rr, &d, &|| json!({"kind": "c08-ir", "registry": rj, "sdesc": dj, "variant": tag}));
+            ctx.count("wrapper_gallery_registries", 1);
+        }
+        // and through the rendered module (the 256-bit variant cannot be rendered)
+        let rj = reg::to_json(&r);
+        let nt = judge(ctx, &r, &d, &|| json!({"kind": "c08", "registry": rj, "sdesc": dj, "source": "wrapper gallery"}));
+        ctx.case(hash_of(&(reg::fingerprint(&r), 0u8)), nt);
+    }
     let n = ctx.tier.pick(2500u64, 100_000u64);
     for case in 0..n {
         if !ctx.mine(case) {
@@ -242,6 +320,24 @@ pub fn run(ctx: &mut Ctx) {
         let src = prog.render_source("TypeInfo");
         let nt = judge(ctx, &r, &d, &|| json!({"kind": "c08", "registry": regj, "sdesc": dj, "source": src}));
         ctx.case(hash_of(&(reg::fingerprint(&r), serde_json::to_string(&d).unwrap())), nt);
+        if case % 3 == 0 {
+            // the same rule asked of the IR, on the registry as it is and with its 128-bit
+            // primitives turned into 256-bit ones (no Rust type, hence no tokens, but an IR)
+            let mut r256 = r.clone();
+            for t in r256.types.iter_mut() {
+                if let scale_info::TypeDef::Primitive(p) = &mut t.ty.type_def {
+                    if *p == scale_info::TypeDefPrimitive::U128 {
+                        *p = scale_info::TypeDefPrimitive::U256;
+                    } else if *p == scale_info::TypeDefPrimitive::I128 {
+                        *p = scale_info::TypeDefPrimitive::I256;
+                    }
+                }
+            }
+            for (rr, tag) in [(&r, "as-is"), (&r256, "256-bit")] {
+                let rj = reg::to_json(rr);
+                judge_ir_compact_as(ctx, rr, &d, &|| json!({"kind": "c08-ir", "registry": rj, "sdesc": dj, "variant": tag}));
+            }
+        }
         if ctx.res.samples.len() < 2 && nt {
             ctx.sample(json!({"registrations": d.specific, "global": d.global_derives, "compact_as": d.compact_as_path, "entries": r.types.len()}));
         }
@@ -271,6 +367,11 @@ pub fn replay(ctx: &mut Ctx, v: &serde_json::Value) {
     let r = reg::from_json(&v["registry"]);
     let d: SDesc = serde_json::from_value(v["sdesc"].clone()).expect("sdesc");
     let vv = v.clone();
+    if v["kind"].as_str() == Some("c08-ir") {
+        judge_ir_compact_as(ctx, &r, &d, &move || vv.clone());
+        ctx.case(0, true);
+        return;
+    }
     let nt = judge(ctx, &r, &d, &move || vv.clone());
     ctx.case(0, nt);
 }
